@@ -8,6 +8,7 @@ mod host;
 mod mock;
 mod templ;
 mod admit;
+mod derive;
 
 use common::*;
 use std::path::{Path, PathBuf};
@@ -27,6 +28,7 @@ fn replay_file(comp: &str, path: &Path, out: &mut Out) {
         "host" => host::replay(&desc, &ops, out),
         "templ" => templ::replay(&desc, &ops, out),
         "admit" => admit::replay(&desc, &ops, out),
+        "derive" => derive::replay(&desc, &ops, out),
         _ => panic!("unknown component"),
     }
 }
@@ -44,6 +46,7 @@ fn main() {
             Some("KindTable") => c10::table_kind(),
             Some("TemplTable") => templ::table_templ(),
             Some("AdmitTable") => admit::table_admit(),
+            Some("DeriveTable") => derive::table_derive(),
             _ => {
                 eprintln!("unknown table");
                 std::process::exit(2)
@@ -119,6 +122,7 @@ fn main() {
         "host" => host::run(&args, &mut out),
         "templ" => templ::run(&args, &mut out),
         "admit" => admit::run(&args, &mut out),
+        "derive" => derive::run(&args, &mut out),
         _ => {
             eprintln!("unknown component {}", comp);
             std::process::exit(2)
